@@ -291,10 +291,16 @@ def arith_pool():
     m, cm, km = Scalar(2.0, "m"), Scalar(300.0, "cm"), Scalar(0.5, "km")
     s, mn = Scalar(4.0, "s"), Scalar(0.25, "min")
     d = Scalar(150.0, "cm", "depth")
+    from collections import OrderedDict
+    from barril.units import Quantity
+
+    # quantities whose entries of one quantity type disagree on the unit (built directly, not by arithmetic)
+    mixed = Scalar.CreateWithQuantity(Quantity.CreateDerived(OrderedDict([("length", ["m", 1]), ("diameter", ["cm", 1])])), 1.0)
+    mixed2 = Scalar.CreateWithQuantity(Quantity.CreateDerived(OrderedDict([("length", ["m", 1]), ("diameter", ["m", 1])])), 2.0)
     return {
         "simple": [m, cm, km, s, mn, d],
         "derived1": [m * m, cm * cm, cm * cm * cm, Scalar(1.0, "m") / (s * s) * Scalar(1.0, "s") * Scalar(1.0, "s") / m / m, km * km],
-        "derived2": [m / s, cm / mn, km * s, cm * d, m * mn],
+        "derived2": [m / s, cm / mn, km * s, cm * d, m * mn, s * cm, mn * km, Scalar(1.0, "s") / cm * Scalar(1.0, "m") * Scalar(1.0, "m"), mixed, mixed2],
         "empty": [Scalar.CreateEmptyScalar(3.0)],
     }
 
@@ -338,13 +344,25 @@ def arith(h):
                 ma, da = magnitude(a) if isinstance(a, Scalar) else (float(a), {})
                 mb, db_ = magnitude(b) if isinstance(b, Scalar) else (float(b), {})
                 call = "%r %s %r" % (a, o, b)
+
+                def snap(x):
+                    if not isinstance(x, Scalar):
+                        return repr(x)
+                    q = x.GetQuantity()
+                    return (x.GetValue(), x.GetUnit(), x.GetCategory(), [(c, list(ue)) for c, ue in q.GetCategoryToUnitAndExps().items()], q.GetComposingUnits())
+
+                before = (snap(a), snap(b))
                 try:
                     r = ops[o](a, b)
                 except Exception as e:
+                    if (snap(a), snap(b)) != before:
+                        return {"reproduced": True, "call": call + " (rejected)", "observed": "operands afterwards: %r" % ((snap(a), snap(b)),), "expected": "operands unchanged: %r" % (before,)}
                     compatible = o in ("mul", "truediv", "floordiv") or da == db_ or not da or not db_
                     if compatible and not isinstance(e, ZeroDivisionError):
                         return {"reproduced": True, "call": call, "observed": repr(e), "expected": "a result"}
                     continue
+                if (snap(a), snap(b)) != before:
+                    return {"reproduced": True, "call": call, "observed": "operands afterwards: %r" % ((snap(a), snap(b)),), "expected": "operands unchanged: %r" % (before,)}
                 if not isinstance(r, Scalar):
                     return {"reproduced": True, "call": call, "observed": repr(r), "expected": "a Scalar"}
                 mr, dr = magnitude(r)
@@ -353,6 +371,26 @@ def arith(h):
                         return {"reproduced": True, "call": call, "observed": repr(r), "expected": "InvalidOperationError"}
                     exp_m = ops[o](ma, mb)
                     exp_d = da or db_
+                    if bool(da) != bool(db_):
+                        # a dimensionless operand is taken in the other operand's units (by design)
+                        va = a.GetValue() if isinstance(a, Scalar) else float(a)
+                        vb = b.GetValue() if isinstance(b, Scalar) else float(b)
+
+                        def consistent(x):
+                            if not isinstance(x, Scalar):
+                                return True
+                            dbx = x.GetQuantity().GetUnitDatabase()
+                            seen = {}
+                            for c_, (u_, e_) in x.GetQuantity().GetCategoryToUnitAndExps().items():
+                                if seen.setdefault(dbx.GetCategoryQuantityType(c_), u_) != u_:
+                                    return False
+                            return True
+
+                        if not (consistent(a) and consistent(b)):
+                            continue  # the units of the other operand are matched first; not a plain value operation
+                        if not close(r.GetValue(), ops[o](va, vb), 1e-9) or dr != exp_d:
+                            return {"reproduced": True, "call": call, "observed": repr(r), "expected": ops[o](va, vb)}
+                        continue
                 elif o == "mul":
                     exp_m = ma * mb
                     exp_d = {k: da.get(k, 0) + db_.get(k, 0) for k in set(da) | set(db_)}
@@ -414,6 +452,14 @@ def array_ops(h):
                     n = la if not left_num else lb
                     if len(r) != n:
                         return {"reproduced": True, "call": call, "observed": repr(r), "expected": "%d elements" % n}
+                    if n == 0:
+                        # no values: the quantity is still the one Scalars in these units would give
+                        try:
+                            sq = ops[o](a if left_num else Scalar(1.0, ua), b if right_num else Scalar(1.0, ub)).GetQuantity()
+                        except Exception:
+                            sq = None
+                        if sq is not None and r.GetQuantity() != sq:
+                            return {"reproduced": True, "call": call, "observed": repr(r.GetQuantity()), "expected": repr(sq)}
                     for i in range(n):
                         sa = a if left_num else Scalar(va[i], ua)
                         sb = b if right_num else Scalar(vb[i], ub)
@@ -569,12 +615,16 @@ def obtain(h):
         lambda: ObtainQuantity("m"),
         lambda: ObtainQuantity("bbl/ft", "area"),
         lambda: ObtainQuantity("bbl/ft"),
+        # the same entries in a different order: different composing maps (ordered), so not equal - and in any
+        # case equal quantities must have equal hashes
+        lambda: ObtainQuantity(OrderedDict([("length", ["m", 2]), ("time", ["s", -1])])),
+        lambda: ObtainQuantity(OrderedDict([("time", ["s", -1]), ("length", ["m", 2])])),
     ]
     qs = [r() for r in reqs]
     for i, r in enumerate(reqs):
         if r() is not qs[i]:
             return {"reproduced": True, "call": "request %d repeated" % i, "observed": "a different object", "expected": "the identical object"}
-    expect_caps = ["Caption A", "Caption B", "", "Caption A", "", "", "", "", "", ""]
+    expect_caps = ["Caption A", "Caption B", "", "Caption A", "", "", "", "", "", "", "", ""]
     for q, c in zip(qs, expect_caps):
         if (q.GetUnknownCaption() or "") != c:
             return {"reproduced": True, "call": "caption of %r" % q, "observed": q.GetUnknownCaption(), "expected": c}
@@ -606,7 +656,7 @@ def obtain(h):
     for i in range(len(qs)):
         for j in range(len(qs)):
             same = (i == j) or {i, j} == {4, 7}
-            if (qs[i] == qs[j]) != same or (same and hash(qs[i]) != hash(qs[j])):
+            if (qs[i] == qs[j]) != same or (qs[i] == qs[j] and (hash(qs[i]) != hash(qs[j]) or len({qs[i], qs[j]}) != 1)):
                 return {"reproduced": True, "call": "requests %d and %d" % (i, j), "observed": "equal=%s" % (qs[i] == qs[j]), "expected": "equal=%s with equal hashes" % same}
     return {"reproduced": False}
 
@@ -828,6 +878,21 @@ def construct_forms(h):
                 r = eval(repr(a), {"Scalar": Scalar})
                 if r != a:
                     return {"reproduced": True, "call": "eval(repr(%r))" % a, "observed": repr(r), "expected": repr(a)}
+    # C02: Scalar(category, unit=u) carries the category's default amount, expressed in u (categories whose
+    # default unit is not the base unit and whose default value is not zero, on a private database)
+    db2 = UnitDatabase.CreateDefaultSingleton()
+    UnitDatabase.PushSingleton(db2)
+    try:
+        db2.AddCategory("probe ambient temperature", "temperature", valid_units=["degC", "degF", "K"], default_unit="degC", default_value=25.0)
+        db2.AddCategory("probe pipeline length", "length", valid_units=["km", "m", "ft"], default_unit="km", default_value=2.0)
+        for c, du, dv, us in (("probe ambient temperature", "degC", 25.0, ["degC", "K", "degF"]), ("probe pipeline length", "km", 2.0, ["km", "m", "ft"])):
+            for u in us:
+                o = Scalar(c, unit=u)
+                exp = db2.Convert(c, du, u, dv)
+                if o.GetCategory() != c or o.GetUnit() != u or not close(o.GetValue(), exp, 1e-12):
+                    return {"reproduced": True, "call": "Scalar(%r, unit=%r) with category default %r %s" % (c, u, dv, du), "observed": repr(o), "expected": "%r %s" % (exp, u)}
+    finally:
+        UnitDatabase.PopSingleton()
     return {"reproduced": False}
 
 
@@ -1427,6 +1492,19 @@ def validity(h):
             lim_ok = (not math.isnan(v)) and (ci.min_value is None or (v > ci.min_value if ci.is_min_exclusive else v >= ci.min_value)) and (ci.max_value is None or (v < ci.max_value if ci.is_max_exclusive else v <= ci.max_value))
             if ok_m != lim_ok:
                 return {"reproduced": True, "call": "Scalar(%r, %r, 'm').IsValid()" % (cat, v), "observed": ok_m, "expected": lim_ok}
+    # limits are stated in the category's default unit, which need not be the base unit of the quantity type
+    name = "probe reach km"
+    if name not in db.categories_to_quantity_types:
+        db.AddCategory(name, "length", default_unit="km", valid_units=["km", "m", "cm"], min_value=0.5, max_value=15.0, default_value=1.0)
+    for v_km in (0.1, 0.5, 1.0, 15.0, 15.5, 0.02):
+        exp = 0.5 <= v_km <= 15.0
+        for unit, f in (("km", 1.0), ("m", 1000.0), ("cm", 100000.0)):
+            sc = Scalar(name, v_km * f, unit)
+            if sc.IsValid() != exp:
+                return {"reproduced": True, "call": "Scalar(%r, %r, %r).IsValid() with limits [0.5, 15] km" % (name, v_km * f, unit), "observed": sc.IsValid(), "expected": exp}
+            ar = Array(name, [v_km * f], unit)
+            if ar.IsValid() != exp:
+                return {"reproduced": True, "call": "Array(%r, [%r], %r).IsValid() with limits [0.5, 15] km" % (name, v_km * f, unit), "observed": ar.IsValid(), "expected": exp}
     return {"reproduced": False}
 
 
